@@ -22,9 +22,10 @@ const (
 	rkStartupCb
 	rkRestartCb
 	rkListen
+	rkHandover // the old listener's File() fails while the new instance takes over
 )
 
-var rkNames = []string{"ok", "parse", "setup", "startupcb", "restartcb", "listen"}
+var rkNames = []string{"ok", "parse", "setup", "startupcb", "restartcb", "listen", "handover"}
 
 type verSpec struct {
 	label string
@@ -168,10 +169,12 @@ func runReload(c *sim.Ctl) {
 	r.faults = st.Draw(2) == 1
 	nops := 1 + st.Draw(6)
 	nclients := 2 + st.Draw(9)
-	if c.Tier == "thorough" {
-		nclients = 2 + st.Draw(11)
-	}
 	c.MaxSteps = 600
+	if c.Tier == "thorough" {
+		nops = 1 + st.Draw(9)
+		nclients = 2 + st.Draw(14)
+		c.MaxSteps = 1000
+	}
 	c.InitStrategy()
 
 	// a real port held open for genuine EADDRINUSE
@@ -188,7 +191,7 @@ func runReload(c *sim.Ctl) {
 	for k := 1; k <= nops; k++ {
 		kind := rkOK
 		if st.Draw(2) == 1 {
-			kind = 1 + st.Draw(5)
+			kind = 1 + st.Draw(6)
 		}
 		r.vers = append(r.vers, r.genVersion(k, kind))
 		r.ops = append(r.ops, &opRec{idx: k, ver: k, kind: kind, start: -1, end: -1, parkCbs: st.Draw(2) == 0})
@@ -239,7 +242,14 @@ func runReload(c *sim.Ctl) {
 				r.started = true
 			} else {
 				var in *casket.Instance
+				if op.kind == rkHandover {
+					w.N.FileErr = func(*sim.Listener) error {
+						c.Fault("listener-File()-fails")
+						return fmt.Errorf("injected: too many open files")
+					}
+				}
 				in, err = r.inst.Restart(w.Input(texts[op.ver]))
+				w.N.FileErr = nil
 				if err == nil {
 					r.inst = in
 					r.curVer = op.ver
